@@ -62,6 +62,11 @@ def run(check: Check) -> None:
     from .antecedent_sem import antecedent_semantics
 
     antecedent_semantics(check, rule="P9")  # Antecedent.activation_degree interpreted on model expression trees with symbolic leaves
+    from . import c08
+    from .activation_sem import activation_semantics
+
+    for cls in c08.ACTIVATIONS:  # a present operator must not be replaced by an absent one on the way to the rules (ready, then "operator missing")
+        activation_semantics(check, cls, ("conjunction", "disjunction", "implication"))
     c16.tokenisers(check, rule="C1-tok")
 
 
